@@ -13,7 +13,8 @@ import NixModel.Store.ApiW
    container, link list or attribute of the public API shows an empty container group);
  * nodes that are new in `g'` (the half-built entity a roll-back has unlinked, its dataset) are not
    the target of any link of an old node other than such an empty group — they are unreachable;
- * the key and id supplies may have advanced.
+ * the key and id supplies may have advanced; new nodes carry keys drawn from the supply during
+   the call (`news`), so no link that existed before can lead to one of them.
 
 `SameOn P` is the frame relation for one primitive step (nodes satisfying `P` untouched), `Plus`
 the state between "entity linked into its container" and "entity unlinked again".
@@ -33,30 +34,45 @@ structure SameOn (P : Nat → Prop) (g g' : Graph) : Prop where
   nextKey_le : g.nextKey ≤ g'.nextKey
   nextId_le : g.nextId ≤ g'.nextId
   keeps : ∀ k, Has g k → Has g' k
+  news : ∀ k, Has g' k → Has g k ∨ (g.nextKey ≤ k ∧ k < g'.nextKey)
   attrs : ∀ k, P k → ∀ a, g'.getAttr k a = g.getAttr k a
   links : ∀ k, P k → g'.links k = g.links k
 
 theorem SameOn.refl (P : Nat → Prop) (g : Graph) : SameOn P g g :=
-  ⟨Nat.le_refl _, Nat.le_refl _, fun _ h => h, fun _ _ _ => rfl, fun _ _ => rfl⟩
+  ⟨Nat.le_refl _, Nat.le_refl _, fun _ h => h, fun _ h => .inl h, fun _ _ _ => rfl, fun _ _ => rfl⟩
+
+/-- new nodes of two consecutive steps -/
+theorem news_trans {g g1 g2 : Graph} (l1 : g.nextKey ≤ g1.nextKey) (l2 : g1.nextKey ≤ g2.nextKey)
+    (n1 : ∀ k, Has g1 k → Has g k ∨ (g.nextKey ≤ k ∧ k < g1.nextKey))
+    (n2 : ∀ k, Has g2 k → Has g1 k ∨ (g1.nextKey ≤ k ∧ k < g2.nextKey)) :
+    ∀ k, Has g2 k → Has g k ∨ (g.nextKey ≤ k ∧ k < g2.nextKey) := by
+  intro k hk
+  rcases n2 k hk with h | h
+  · rcases n1 k h with h' | h'
+    · exact .inl h'
+    · exact .inr ⟨h'.1, Nat.lt_of_lt_of_le h'.2 l2⟩
+  · exact .inr ⟨Nat.le_trans l1 h.1, h.2⟩
 
 theorem SameOn.trans {P : Nat → Prop} {g g1 g2 : Graph} (h1 : SameOn P g g1) (h2 : SameOn P g1 g2) :
     SameOn P g g2 :=
   ⟨Nat.le_trans h1.nextKey_le h2.nextKey_le, Nat.le_trans h1.nextId_le h2.nextId_le,
    fun k h => h2.keeps k (h1.keeps k h),
+   news_trans h1.nextKey_le h2.nextKey_le h1.news h2.news,
    fun k hp a => (h2.attrs k hp a).trans (h1.attrs k hp a),
    fun k hp => (h2.links k hp).trans (h1.links k hp)⟩
 
 theorem SameOn.mono {P Q : Nat → Prop} {g g' : Graph} (h : SameOn P g g') (hq : ∀ k, Q k → P k) :
     SameOn Q g g' :=
-  ⟨h.nextKey_le, h.nextId_le, h.keeps, fun k hk => h.attrs k (hq k hk), fun k hk => h.links k (hq k hk)⟩
+  ⟨h.nextKey_le, h.nextId_le, h.keeps, h.news, fun k hk => h.attrs k (hq k hk), fun k hk => h.links k (hq k hk)⟩
 
 theorem sameOn_freshId (P : Nat → Prop) (g : Graph) : SameOn P g (g.freshId).1 :=
-  ⟨Nat.le_refl _, Nat.le_succ _, fun _ h => h, fun _ _ _ => rfl, fun _ _ => rfl⟩
+  ⟨Nat.le_refl _, Nat.le_succ _, fun _ h => h, fun _ h => .inl h, fun _ _ _ => rfl, fun _ _ => rfl⟩
 
 theorem sameOn_setAttr {P : Nat → Prop} (g : Graph) {k : Nat} (a : String) (v : Option String)
     (hk : ¬ P k) : SameOn P g (g.setAttr k a v) :=
   ⟨Nat.le_refl _, Nat.le_refl _,
    fun k' h => by unfold Has; rw [node?_isSome_setAttr]; exact h,
+   fun k' h => by unfold Has at h; rw [node?_isSome_setAttr] at h; exact .inl h,
    fun k' hp a' => getAttr_setAttr_ne g a v (fun (e : k' = k) => hk (e ▸ hp)) a',
    fun k' _ => links_setAttr g k a v k'⟩
 
@@ -64,12 +80,21 @@ theorem sameOn_addLink {P : Nat → Prop} (g : Graph) {p : Nat} (n : String) (t 
     (hp : ¬ P p) : SameOn P g (g.addLink p n t) :=
   ⟨Nat.le_refl _, Nat.le_refl _,
    fun k' h => by unfold Has; rw [node?_isSome_addLink]; exact h,
+   fun k' h => by unfold Has at h; rw [node?_isSome_addLink] at h; exact .inl h,
    fun k' _ a' => getAttr_addLink g p n t k' a',
    fun k' hk => links_addLink_ne g n t (fun (e : k' = p) => hp (e ▸ hk))⟩
 
 theorem sameOn_newNode (P : Nat → Prop) (g : Graph) (kd : NKind) : SameOn P g (g.newNode kd).1 :=
   ⟨Nat.le_succ _, Nat.le_refl _,
    fun k' h => by unfold Has at *; rw [node?_isSome_newNode, h]; rfl,
+   fun k' h => by
+     unfold Has at *
+     rw [node?_isSome_newNode] at h
+     cases hk : (g.node? k').isSome with
+     | true => exact .inl rfl
+     | false =>
+       simp [hk] at h
+       exact .inr ⟨Nat.le_of_eq h.symm, by show k' < g.nextKey + 1; omega⟩,
    fun k' _ a' => getAttr_newNode g kd k' a',
    fun k' _ => links_newNode g kd k'⟩
 
@@ -135,6 +160,7 @@ structure Plus (P : Nat → Prop) (g g' : Graph) (c : Nat) (n : String) (k : Nat
   nextKey_le : g.nextKey ≤ g'.nextKey
   nextId_le : g.nextId ≤ g'.nextId
   keeps : ∀ k', Has g k' → Has g' k'
+  news : ∀ k, Has g' k → Has g k ∨ (g.nextKey ≤ k ∧ k < g'.nextKey)
   attrs : ∀ k', P k' → ∀ a, g'.getAttr k' a = g.getAttr k' a
   links_ne : ∀ k', P k' → k' ≠ c → g'.links k' = g.links k'
   links_c : g'.links c = g.links c ++ [(n, k)]
@@ -143,17 +169,24 @@ theorem Plus.then {P : Nat → Prop} {g g1 g2 : Graph} {c k : Nat} {n : String}
     (h : Plus P g g1 c n k) (h2 : SameOn (fun x => P x ∨ x = c) g1 g2) : Plus P g g2 c n k :=
   ⟨Nat.le_trans h.nextKey_le h2.nextKey_le, Nat.le_trans h.nextId_le h2.nextId_le,
    fun k' hk => h2.keeps k' (h.keeps k' hk),
+   news_trans h.nextKey_le h2.nextKey_le h.news h2.news,
    fun k' hp a => (h2.attrs k' (.inl hp) a).trans (h.attrs k' hp a),
    fun k' hp hne => (h2.links k' (.inl hp)).trans (h.links_ne k' hp hne),
    (h2.links c (.inr rfl)).trans h.links_c⟩
 
 theorem plus_ensureGroup (P : Nat → Prop) {g : Graph} {c : Nat} {n : String} (hc : Has g c)
     (hnone : g.child? c n = none) : Plus P g (g.ensureGroup c n).1 c n g.nextKey := by
-  refine ⟨(nextKey_ensureGroup_le g c n).1, Nat.le_of_eq (nextId_ensureGroup g c n).symm, ?_, ?_, ?_, ?_⟩
+  refine ⟨(nextKey_ensureGroup_le g c n).1, Nat.le_of_eq (nextId_ensureGroup g c n).symm, ?_, ?_, ?_, ?_, ?_⟩
   · intro k' hk
     rw [ensureGroup_of_none hnone]
     unfold Has at *
     rw [node?_isSome_addLink, node?_isSome_newNode, hk]; rfl
+  · intro k' hk
+    rcases has_ensureGroup hk with h | h
+    · exact .inl h
+    · refine .inr ⟨Nat.le_of_eq h.symm, ?_⟩
+      rw [ensureGroup_of_none hnone, h]
+      exact Nat.lt_succ_self _
   · intro k' _ a; exact getAttr_ensureGroup g c n k' a
   · intro k' _ hne
     rw [links_ensureGroup g n hc k']
@@ -174,11 +207,15 @@ theorem filter_ne_append_self {l : List (String × Nat)} {n : String} {k : Nat}
 /-- the roll-back: `del container[name]` restores the container's link list exactly -/
 theorem Plus.delLink {P : Nat → Prop} {g g1 : Graph} {c k : Nat} {n : String}
     (h : Plus P g g1 c n k) (hnone : g.child? c n = none) : SameOn P g (g1.delLink c n) := by
-  refine ⟨h.nextKey_le, h.nextId_le, ?_, ?_, ?_⟩
+  refine ⟨h.nextKey_le, h.nextId_le, ?_, ?_, ?_, ?_⟩
   · intro k' hk
     unfold Has
     rw [node?_isSome_delLink]
     exact h.keeps k' hk
+  · intro k' hk
+    unfold Has at hk
+    rw [node?_isSome_delLink] at hk
+    exact h.news k' hk
   · intro k' hp a
     rw [getAttr_delLink]
     exact h.attrs k' hp a
@@ -196,16 +233,17 @@ structure Unch (g g' : Graph) : Prop where
   nextKey_le : g.nextKey ≤ g'.nextKey
   nextId_le : g.nextId ≤ g'.nextId
   keeps : ∀ k, Has g k → Has g' k
+  news : ∀ k, Has g' k → Has g k ∨ (g.nextKey ≤ k ∧ k < g'.nextKey)
   attrs : ∀ k, Has g k → ∀ a, g'.getAttr k a = g.getAttr k a
   links : ∀ k, Has g k → ∃ extra, g'.links k = g.links k ++ extra ∧
     ∀ l ∈ extra, ¬ Has g l.2 ∧ EmptyGroup g' l.2 ∧ (k = 0 ∨ kindOf g k ≠ "")
 
 theorem Unch.refl (g : Graph) : Unch g g :=
-  ⟨Nat.le_refl _, Nat.le_refl _, fun _ h => h, fun _ _ _ => rfl,
+  ⟨Nat.le_refl _, Nat.le_refl _, fun _ h => h, fun _ h => .inl h, fun _ _ _ => rfl,
    fun _ _ => ⟨[], by simp, by simp⟩⟩
 
 theorem SameOn.unch {g g' : Graph} (h : SameOn (Has g) g g') : Unch g g' :=
-  ⟨h.nextKey_le, h.nextId_le, h.keeps, h.attrs,
+  ⟨h.nextKey_le, h.nextId_le, h.keeps, h.news, h.attrs,
    fun k hk => ⟨[], by simp [h.links k hk], by simp⟩⟩
 
 theorem kindOf_of_attrs {g g' : Graph} {k : Nat} (h : ∀ a, g'.getAttr k a = g.getAttr k a) :
@@ -214,7 +252,7 @@ theorem kindOf_of_attrs {g g' : Graph} {k : Nat} (h : ∀ a, g'.getAttr k a = g.
 
 theorem Unch.then_same {g g1 g2 : Graph} (h : Unch g g1) (h2 : SameOn (Has g1) g1 g2) : Unch g g2 := by
   refine ⟨Nat.le_trans h.nextKey_le h2.nextKey_le, Nat.le_trans h.nextId_le h2.nextId_le,
-    fun k hk => h2.keeps k (h.keeps k hk),
+    fun k hk => h2.keeps k (h.keeps k hk), news_trans h.nextKey_le h2.nextKey_le h.news h2.news,
     fun k hk a => (h2.attrs k (h.keeps k hk) a).trans (h.attrs k hk a), ?_⟩
   intro k hk
   obtain ⟨extra, he, hx⟩ := h.links k hk
@@ -225,7 +263,7 @@ theorem Unch.then_same {g g1 g2 : Graph} (h : Unch g g1) (h2 : SameOn (Has g1) g
 
 theorem Unch.after_same {g g1 g2 : Graph} (h1 : SameOn (Has g) g g1) (h : Unch g1 g2) : Unch g g2 := by
   refine ⟨Nat.le_trans h1.nextKey_le h.nextKey_le, Nat.le_trans h1.nextId_le h.nextId_le,
-    fun k hk => h.keeps k (h1.keeps k hk),
+    fun k hk => h.keeps k (h1.keeps k hk), news_trans h1.nextKey_le h.nextKey_le h1.news h.news,
     fun k hk a => (h.attrs k (h1.keeps k hk) a).trans (h1.attrs k hk a), ?_⟩
   intro k hk
   obtain ⟨extra, he, hx⟩ := h.links k (h1.keeps k hk)
@@ -244,7 +282,7 @@ theorem unch_ensureGroup {g : Graph} {p : Nat} (n : String) (hp : Has g p)
   | some c => rw [ensureGroup_of_some hc]; exact Unch.refl g
   | none =>
     have hpl := plus_ensureGroup (fun _ => True) hp hc
-    refine ⟨hpl.nextKey_le, hpl.nextId_le, hpl.keeps, fun k _ a => hpl.attrs k trivial a, ?_⟩
+    refine ⟨hpl.nextKey_le, hpl.nextId_le, hpl.keeps, hpl.news, fun k _ a => hpl.attrs k trivial a, ?_⟩
     intro k hkk
     by_cases hkp : k = p
     · subst hkp
@@ -272,7 +310,7 @@ theorem unch_ensureGroup {g : Graph} {p : Nat} (n : String) (hp : Has g p)
 /-- the relation composes (the root exists before the call, so no ghost node is the root) -/
 theorem Unch.trans {g g1 g2 : Graph} (hroot : Has g 0) (h1 : Unch g g1) (h2 : Unch g1 g2) : Unch g g2 := by
   refine ⟨Nat.le_trans h1.nextKey_le h2.nextKey_le, Nat.le_trans h1.nextId_le h2.nextId_le,
-    fun k hk => h2.keeps k (h1.keeps k hk),
+    fun k hk => h2.keeps k (h1.keeps k hk), news_trans h1.nextKey_le h2.nextKey_le h1.news h2.news,
     fun k hk a => (h2.attrs k (h1.keeps k hk) a).trans (h1.attrs k hk a), ?_⟩
   intro k hk
   obtain ⟨e1, he1, hx1⟩ := h1.links k hk
@@ -296,6 +334,13 @@ theorem Unch.trans {g g1 g2 : Graph} (hroot : Has g 0) (h1 : Unch g g1) (h2 : Un
     rcases n3 with n3 | n3
     · exact .inl n3
     · exact .inr (by rw [← kindOf_of_attrs (h1.attrs k hk)]; exact n3)
+
+/-- keys stay below the supply -/
+theorem Unch.keysLt {g g' : Graph} (h : Unch g g') (hK : KeysLt g) : KeysLt g' := by
+  intro k hk
+  rcases h.news k hk with h1 | h1
+  · exact Nat.lt_of_lt_of_le (hK k h1) h.nextKey_le
+  · exact h1.2
 
 theorem has_of_kindOf {g : Graph} {k : Nat} (h : kindOf g k ≠ "") : Has g k := by
   unfold kindOf at h
